@@ -547,8 +547,17 @@ class Compiler:
         function = function(self.context, operands)
         # Constants folding.
         if all(isinstance(operand, EvalConstant) for operand in operands) and function.pure:
-            return EvalConstant(function(None), function.dtype)
+            return self._fold(function, node)
         return function
+
+    def _fold(self, function, node):
+        # An expression over constants is evaluated here: what goes wrong
+        # doing it is an error in the statement.
+        try:
+            value = function(None)
+        except Exception as exc:
+            raise CompilationError(f'cannot evaluate constant expression: {exc}', node) from exc
+        return EvalConstant(value, function.dtype)
 
     @_compile.register
     def _subscript(self, node: ast.Subscript):
@@ -578,7 +587,7 @@ class Compiler:
         function = function(operand)
         # Constants folding.
         if isinstance(operand, EvalConstant):
-            return EvalConstant(function(None), function.dtype)
+            return self._fold(function, node)
         return function
 
     @_compile.register
@@ -625,7 +634,7 @@ class Compiler:
                     function = op(left, right)
                     # Constants folding.
                     if isinstance(left, EvalConstant) and isinstance(right, EvalConstant):
-                        return EvalConstant(function(None), function.dtype)
+                        return self._fold(function, node)
                     return function
 
             # Implement type inference when one of the operands is not strongly typed.
